@@ -1287,6 +1287,107 @@ func cleanupRace(m *meta, rng *rand.Rand, round int) {
 	m.count("cleanup_race_rounds")
 }
 
+// cleanupBehindLock (C05): Cleanup is called while another caller holds the shard's lock (here the harness, standing
+// in for a long Keys scan or a batch being applied). Whenever Cleanup returns, every entry that was expired when it was
+// called is gone: a sweep waits for a busy shard, it does not skip it.
+func cleanupBehindLock(m *meta, rng *rand.Rand, round int) {
+	pol := pick(rng, []kioshun.EvictionPolicy{kioshun.LRU, kioshun.FIFO, kioshun.LFU, kioshun.SieveTinyLFU})
+	shards := pick(rng, []int{1, 4})
+	ctx := fmt.Sprintf("cleanup behind a held lock round %d policy %v shards %d", round, pol, shards)
+	c, err := kioshun.New[int, int](kioshun.Config{ShardCount: shards, EvictionPolicy: pol, MaxSize: 256})
+	must(err)
+	defer c.Close()
+	watch(ctx)
+	defer unwatch()
+	for k := 0; k < 24; k++ {
+		if k%2 == 0 {
+			c.Set(k, k, time.Millisecond)
+		} else {
+			c.Set(k, k, time.Hour)
+		}
+	}
+	time.Sleep(4 * time.Millisecond)
+	si := c.VerifShardIndex(0)
+	c.VerifHoldShard(si, true)
+	done := make(chan struct{})
+	go func() { c.Cleanup(); close(done) }()
+	time.Sleep(15 * time.Millisecond)
+	c.VerifHoldShard(si, false)
+	<-done
+	left := 0
+	for k := 0; k < 24; k += 2 {
+		if _, _, _, ok := c.VerifPeek(k); ok {
+			left++
+		}
+	}
+	if left > 0 || c.Size() != 12 {
+		m.violate("C05", fmt.Sprintf("%s: 12 entries with a 1 ms TTL and 12 with 1 h; 4 ms later Cleanup() was called while shard %d's lock was held for 15 ms by another caller; after Cleanup returned %d expired entries are still resident and Size()=%d (want 12): Cleanup removes every expired entry", ctx, si, left, c.Size()), ctx)
+	}
+	m.count("cleanup_behind_lock_rounds")
+}
+
+// cleanupVsLazyExpiry (C10 / C06): readers discover expired entries (lazy expiry) while Cleanup sweeps the same shard.
+// Each entry leaves once: after quiescence Stats.Expirations equals the number of RemovedExpired notifications, and
+// both equal the number of entries written.
+func cleanupVsLazyExpiry(m *meta, rng *rand.Rand, round int) {
+	pol := pick(rng, []kioshun.EvictionPolicy{kioshun.LRU, kioshun.LFU, kioshun.FIFO, kioshun.SieveTinyLFU})
+	ctx := fmt.Sprintf("cleanup vs lazy expiry round %d policy %v", round, pol)
+	var notified atomic.Int64
+	c, err := kioshun.New[int, int](kioshun.Config{ShardCount: 1, EvictionPolicy: pol, MaxSize: 0, StatsEnabled: true},
+		kioshun.WithOnRemove(func(k, v int, r kioshun.RemovalReason) {
+			if r == kioshun.RemovedExpired {
+				notified.Add(1)
+			}
+		}))
+	must(err)
+	watch(ctx)
+	defer unwatch()
+	const rounds, n = 8, 1500
+	for rd := 0; rd < rounds; rd++ {
+		for k := 0; k < n; k++ {
+			c.Set(rd*n+k, k, time.Millisecond)
+		}
+		time.Sleep(3 * time.Millisecond)
+		var wg sync.WaitGroup
+		for g := 0; g < 4; g++ {
+			wg.Add(1)
+			go func(g int) {
+				defer wg.Done()
+				for k := g; k < n; k += 4 {
+					switch k % 3 {
+					case 0:
+						c.Get(rd*n + k)
+					case 1:
+						c.Exists(rd*n + k)
+					default:
+						c.GetWithTTL(rd*n + k)
+					}
+				}
+			}(g)
+		}
+		c.Cleanup()
+		wg.Wait()
+		c.Cleanup()
+	}
+	c.Sync()
+	c.VerifFlushRemovals()
+	for t0 := time.Now(); notified.Load() < rounds*n && time.Since(t0) < 2*time.Second; {
+		time.Sleep(time.Millisecond)
+	}
+	st := c.Stats()
+	if st.Expirations != notified.Load() || notified.Load() != rounds*n || c.Size() != 0 {
+		props := []string{"C10"}
+		if notified.Load() != rounds*n {
+			props = append(props, "C06")
+		}
+		for _, p := range props {
+			m.violate(p, fmt.Sprintf("%s: %d entries with a 1 ms TTL were written and left to expire while Get / Exists / GetWithTTL raced Cleanup; afterwards Stats.Expirations=%d, RemovedExpired notifications=%d, Size=%d: every entry expires once, is counted once and reported once", ctx, rounds*n, st.Expirations, notified.Load(), c.Size()), ctx)
+		}
+	}
+	c.Close()
+	m.count("cleanup_vs_lazy_rounds")
+}
+
 // queuedStampProbe (C05): a SetAsync that goes through the ring while its shard lock is busy must still live for its
 // whole TTL from the moment it is committed. Under the virtual clock: the harness holds the shard's write lock, the
 // SetAsync is queued, the worker dequeues it and blocks on the lock; the clock then advances by 7 s, the lock is
@@ -1929,11 +2030,14 @@ func flickerProbe(m *meta) {
 // removals. Counted with the process-wide staged / delivered counters, so the expectation is policy independent.
 func busyNotifierProbe(m *meta) {
 	pols := []kioshun.EvictionPolicy{kioshun.LRU, kioshun.LFU, kioshun.FIFO, kioshun.SieveTinyLFU}
-	acts := []string{"Clear", "Sync", "Cleanup", "Delete(absent)", "nothing", "Clear twice"}
+	acts := []string{"Clear", "Sync", "Cleanup", "Delete(absent)", "nothing", "Clear twice", "Cleanup sweeping 20 expired entries", "600 more removals, then Close"}
 	for pi, pol := range pols {
 		for ai, act := range acts {
 			shards := []int{1, 2}[(pi+ai)%2]
 			conf := kioshun.Config{MaxSize: int64(shards), ShardCount: shards, EvictionPolicy: pol}
+			if ai >= 6 {
+				conf = kioshun.Config{MaxSize: 2048, ShardCount: 1, EvictionPolicy: pol}
+			}
 			ctx := fmt.Sprintf("busy notifier probe cfg %+v action %s", conf, act)
 			entered := make(chan struct{})
 			release := make(chan struct{})
@@ -1947,6 +2051,11 @@ func busyNotifierProbe(m *meta) {
 			}))
 			must(err)
 			watch(ctx)
+			if ai == 6 {
+				for j := 0; j < 20; j++ {
+					c.Set(1000+j, j, time.Millisecond)
+				}
+			}
 			k := 0
 			for ; k < 64 && kioshun.VerifStagedCount() == staged0; k++ {
 				c.Set(k, k, kioshun.NoExpiration)
@@ -1976,16 +2085,35 @@ func busyNotifierProbe(m *meta) {
 				c.Cleanup()
 			case "Delete(absent)":
 				c.Delete(-5)
+			case "Cleanup sweeping 20 expired entries":
+				time.Sleep(3 * time.Millisecond)
+				c.Cleanup()
+			}
+			closed := make(chan struct{})
+			if ai == 7 {
+				for j := 0; j < 600; j++ {
+					c.Set(2000+j, j, kioshun.NoExpiration)
+					c.Delete(2000 + j)
+				}
+				go func() { c.Close(); close(closed) }()
+				time.Sleep(2 * time.Millisecond)
 			}
 			want := kioshun.VerifStagedCount() - staged0
 			close(release)
+			if ai == 7 {
+				select {
+				case <-closed:
+				case <-time.After(3 * time.Second):
+					m.violate("C08", fmt.Sprintf("%s: Close did not return within 3 s after the listener returned", ctx), ctx)
+				}
+			}
 			deadline := time.Now().Add(3 * time.Second)
 			for kioshun.VerifDeliveredCount()-delivered0 < want && time.Now().Before(deadline) {
 				time.Sleep(time.Millisecond)
 			}
 			if got := kioshun.VerifDeliveredCount() - delivered0; got != want {
 				for _, p := range []string{"C07", "C06"} {
-					m.violate(p, fmt.Sprintf("%s: %d removals were staged for the listener while the notifier was busy inside a listener call, then %s ran; 3 s after the listener returned only %d have been delivered and nothing else touches the cache: the notifier sleeps with work pending", ctx, want, act, got), ctx)
+					m.violate(p, fmt.Sprintf("%s: %d removals were staged for the listener while the notifier was busy inside a listener call, then %s ran; 3 s after the listener returned only %d have been delivered and nothing else touches the cache: removals were lost or the notifier sleeps with work pending", ctx, want, act, got), ctx)
 				}
 			}
 			unwatch()
@@ -2093,7 +2221,7 @@ func expiryRace(m *meta, rng *rand.Rand, round int) {
 		}()
 	}
 	missing := 0
-	for i := 0; i < 300; i++ {
+	for i, t0 := 0, time.Now(); i < 300 && time.Since(t0) < 20*time.Second; i++ { // time-bounded: on one core the six spinning readers are pre-empted only every 10 ms
 		c.Set(1, 2*i, 120*time.Microsecond)
 		c.Set(2, 1000000+2*i, 90*time.Microsecond)
 		c.Set(4, 2000000+2*i, 100*time.Microsecond)
@@ -2284,7 +2412,7 @@ func tornRace(m *meta, rng *rand.Rand, round int) {
 	if raceBuild {
 		rounds = 8000
 	}
-	for i := 0; i < rounds; i++ {
+	for i, t0 := 0, time.Now(); i < rounds && time.Since(t0) < 20*time.Second; i++ {
 		c.Set(7, mkBig(uint64(1000+i), -1), kioshun.NoExpiration)
 		switch i % 6 {
 		case 2:
@@ -2365,7 +2493,7 @@ func tableRace(m *meta, rng *rand.Rand, round int) {
 	}
 	watch(ctx)
 	n := 20000 + rng.Intn(60000)
-	for i := 0; i < n; i++ {
+	for i, t0 := 0, time.Now(); i < n && time.Since(t0) < 20*time.Second; i++ {
 		k := rng.Intn(4096)
 		if i%7 == 0 {
 			j := crowd0 + rng.Intn(crowdN)
@@ -2443,6 +2571,8 @@ func streamConc(o opts) {
 			statsRace(m, rng, r)
 			catchUpStats(m, rng, r)
 			cleanupRace(m, rng, r)
+			cleanupBehindLock(m, rng, r)
+			cleanupVsLazyExpiry(m, rng, r)
 			queuedStampProbe(m, rng, r)
 			ttlBoundaryProbe(m, rng, r)
 			deleteBehindQueue(m, rng, r)
